@@ -35,7 +35,7 @@ CLAIMED = {
          'Trusted: Lean kernel, Mathlib, harness op interpreter/generators; scipy from_quat and lstsq modelled by contract; rounding outside the theorems (near-pi precision loss of MatrixLog3 = known finding).',
          'Lean 4 invariant proof by induction over operation histories on a hand-written model + differential correspondence + on-object falsifier',
          'DESIGN.md section 5 C03'),
- 'C04': ('Machine-checked theorems (Lean 4, reals) on the same model: @ is matrix product, inv is the two-sided group inverse, associativity, localToGlobal = ref*rel and globalToLocal = inv(ref)*x '
+ 'C04': ('Machine-checked theorems (Lean 4, reals) on the same model: @ is matrix product, inv is the two-sided group inverse, reverses products (inv(a@b) = inv(b)@inv(a)) and is an involution, associativity, localToGlobal = ref*rel and globalToLocal = inv(ref)*x '
          '(through exp3∘log3 = id), mutual inverses, and each constructor form (6 numbers, rpy = Rx*Ry*Rz, quaternion, matrix, pair, tm, array of tm) yields the stated matrix; the quaternion form is invariant under any non-zero scaling of the quaternion, in particular q and -q (theorem), so every quaternion description of one rotation gives one transform. '
          'Tied by differential runs on redundant descriptions of one pose and on pose triples; laws also evaluated on the real objects against NumPy references.',
          'Trusted: as C03; scipy as_quat/from_matrix by contract (checked on the implementation); frame theorems carry the angle side condition (band measured).',
